@@ -29,6 +29,7 @@ Clauses(r) ==
   C17_CurveUnchanged |-> r.unchanged,
   C17_ScaleInvariant |-> r.scale_ok,
   C17_RetractIndependent |-> r.retract_ok,
+  C17_OnlyAbscissaForceFit |-> r.othercols_ok,
   C17_Deterministic |-> r.repeat_ok,
   \* features depend only on the curve's present approach data, fit and
   \* contact point -- not on what the features object saw earlier
